@@ -155,9 +155,16 @@ SITUATION_NAMES = sorted(situations(random.Random(0), 'user:pa').keys())
 NAME_CASINGS = [b'Proxy-Authorization', b'proxy-authorization', b'PROXY-AUTHORIZATION', b'pRoXy-aUtHoRiZaTiOn', b'Proxy-authorization']
 
 
-def flags_for(cred: str, nplug: int) -> Any:
+# documented options that sit next to --basic-auth in a deployment; none of them changes who is let through or what of the
+# credentials reaches the origin
+CONFIGS = {'plain': [], 'disable-headers': ['--disable-headers', 'x-blocked,cookie'], 'disable-one': ['--disable-headers', 'user-agent'],
+           'small-buffers': ['--client-recvbuf-size', '64', '--max-sendbuf-size', '64'], 'timeout': ['--timeout', '3600'],
+           'web-too': ['--enable-web-server']}
+
+
+def flags_for(cred: str, nplug: int, cfg: str = 'plain') -> Any:
     plugins = [RecA, RecB][:nplug]
-    return make_flags(['--basic-auth', cred], plugins=plugins, cache_key='c08:%s:%d' % (cred, nplug))
+    return make_flags(['--basic-auth', cred] + CONFIGS[cfg], plugins=plugins, cache_key='c08:%s:%d:%s' % (cred, nplug, cfg))
 
 
 def run_case(case: Dict[str, Any]) -> Dict[str, Any]:
@@ -166,7 +173,7 @@ def run_case(case: Dict[str, Any]) -> Dict[str, Any]:
     sits = situations(random.Random('c08sit:%s:%s' % (case['seed'], case['i'])), cred)
     sit = case['situation'] if case['situation'] in sits else 'exact'
     values, expected = sits[sit]
-    flags = flags_for(cred, case['plugins'])
+    flags = flags_for(cred, case['plugins'], case.get('cfg', 'plain'))
     shim.S.reset()
     del CALLS[:]
     rig = StepRig(flags, case.get('mode', 'local'))
@@ -305,7 +312,8 @@ def run_case(case: Dict[str, Any]) -> Dict[str, Any]:
     finally:
         audit.stop()
         rig.close()
-    obs.update({'situation:' + sit: 1, 'method:' + method: 1, 'plugins:%d' % case['plugins']: 1, 'seg:' + case['seg']: 1})
+    obs.update({'situation:' + sit: 1, 'method:' + method: 1, 'plugins:%d' % case['plugins']: 1, 'seg:' + case['seg']: 1,
+                'cfg:' + case.get('cfg', 'plain'): 1})
     nontrivial = bool(values) and values != [b'Basic ' + tok]
     return {'viol': viol, 'nontrivial': nontrivial,
             'sig': '%s/%s/%s/%d/%d/%s' % (sit, method, case['seg'], case['plugins'], case['cred'], case.get('by_name')),
@@ -328,12 +336,12 @@ def cases(tier: str, seed: int):
                        'method': METHODS[(i + k) % len(METHODS)], 'seg': ['whole', 'two', 'bytes'][k],
                        'plugins': rng.choice([0, 1, 2]), 'name_casing': rng.randrange(5), 'by_name': rng.random() < 0.4,
                        'followups': rng.choice([0, 1, 3]), 'transport': rng.choice(['unix', 'tcp']),
-                       'mode': rng.choice(['local', 'local', 'remote'])}
+                       'mode': rng.choice(['local', 'local', 'remote']), 'cfg': rng.choice(['plain', 'plain'] + sorted(CONFIGS))}
 
 
 def floors(tier: str) -> Dict[str, int]:
     return {'near_miss_tokens': 200, 'outcome:served': 150, 'outcome:407': 500, 'followups': 100, 'method:CONNECT': 100,
-            'plugins:2': 30, 'distinct:situations': 35, 'origin_requests_checked': 40}
+            'plugins:2': 30, 'distinct:situations': 35, 'origin_requests_checked': 40, 'cfg:disable-headers': 40, 'cfg:small-buffers': 40}
 
 
 if __name__ == '__main__':
